@@ -265,7 +265,7 @@ PROPS = {
         "claim": "Preamble codec only: the WebTransport stream preamble (0x54 / 0x41 varint + session id varint) is written exactly and stripped exactly - encoders emit precisely those bytes for every session id, decoders (one-shot, buffered, and the async leaf futures under every chunking / Pending pattern by one-step induction) consume precisely those bytes and never a following application byte.",
         "note": "Not decided: that quinn delivers stream bytes in order, the driver's tasks, concurrency between streams, flow control, the async composites (StreamHeader::read_async / Frame::read_async are sequential compositions of the verified leaf futures - async fn desugaring trusted).",
         "kani": STREAM_HEADER_KANI + [STREAM_KANI_QUICK[4], STREAM_KANI_QUICK[5], FRAME_READ_20, STREAM_KANI_BUFFERED[0]] + ASYNC_LEAF_KANI,
-        "verus": [V("frame", pair=("proto", "p_frame_read_matches_reference_20")), V("frame_async"), V("stream_header", pair=("proto", "p_stream_header_read_matches_reference"))],
+        "verus": [V("frame", pair=("proto", "p_frame_read_matches_reference_20")), V("frame_async"), V("stream_header", pair=("proto", "p_stream_header_read_matches_reference")), V("frame_write", pair=("proto", "p_frame_write_roundtrip_8"))],
         "not_decided": ["in-order delivery (quinn)", "worker tasks / concurrency", "async composites beyond their leaf futures"],
     },
     "C03": {
@@ -325,7 +325,7 @@ PROPS = {
         "note": "Frame/datagram payload length is bounded on Kani (8/70, 16/1200). Field sections and settings maps as wholes go through HashMap/iterators and are NOT claimed (Huffman codec, HashMap, Vec trusted).",
         "kani": VARINT_KANI + FRAME_WRITE_KANI + [FRAME_READ_20, STREAM_HEADER_KANI[1], DATAGRAM_KANI[0], DATAGRAM_KANI[1], DATAGRAM_KANI[2], DATAGRAM_KANI[3]]
                 + QPACK_INT_ENC + [QPACK_MISC[1], QPACK_LOOKUP, VEC_PUT_BYTES],
-        "verus": [V("ids", pair=("proto", "c_varint_size")), V("qpack_encode")],
+        "verus": [V("ids", pair=("proto", "c_varint_size")), V("qpack_encode"), V("frame_write", pair=("proto", "p_frame_write_roundtrip_8"))],
         "not_decided": ["Headers::generate_frame <-> with_frame and Settings::generate_frame <-> with_frame as wholes"],
     },
     "C15": {
@@ -342,7 +342,7 @@ PROPS = {
         "note": "Not under contract (HashMap iteration / sort closure / driver): exact content of the local SETTINGS frame, sorted_headers ordering (pseudo-headers first), Encoder::encode field-line choice beyond the integer/static-table primitives, 'exactly one control stream, SETTINGS first' (worker).",
         "kani": [FRAME_KIND_KANI[3], STREAM_KIND_KANI[3], SETTING_ID_KANI[3]] + MISC_KANI + [QPACK_MISC[1]] + QPACK_INT_ENC[:2]
                 + [STREAM_KANI_QUICK[5], STREAM_HEADER_KANI[1], FRAME_WRITE_KANI[0], DATAGRAM_KANI[2], CAPSULE_KANI[0]],
-        "verus": [V("qpack_encode")],
+        "verus": [V("qpack_encode"), V("frame_write", pair=("proto", "p_frame_write_roundtrip_8"))],
         "not_decided": ["LocalSettingsStream content", "pseudo-header ordering", "Encoder::encode as a whole", "worker emission order"],
     },
     "C17": {
